@@ -25,6 +25,7 @@ pub static PROP: Prop = Prop {
 };
 
 fn check(t: &mut Tape, ctx: &mut Ctx) -> CheckResult {
+    ctx.cap_medium(260);
     let sz = ctx.sizes;
     let al = gen::alpha(t, &sz);
     let d = gen::diagram(t, &sz, al, ctx);
